@@ -92,6 +92,12 @@ pub struct Oracle {
     /// commit ledger: index -> (term, payload hash, first reporter)
     pub commits: BTreeMap<u64, (u64, u64, u32)>,
     pub known_violation_keys: BTreeSet<String>,
+    pub last_down_kind: BTreeMap<u32, String>,
+    /// voters view of a candidate when it sent vote requests: (node, term) -> voters
+    pub vote_time_voters: BTreeMap<(u32, u64), Vec<u32>>,
+    /// last notified term per (node, incarnation) for C31
+    pub note_terms: BTreeMap<(u32, u64), u64>,
+    pub learner_cfg_nodes: BTreeSet<u32>,
 }
 
 pub type OracleRef = Arc<Mutex<Oracle>>;
@@ -199,8 +205,9 @@ impl Oracle {
 
     // ───────────── votes (C01, C02, C27) ─────────────
 
-    pub fn on_vote_request_sent(&mut self, from: u32, req: &VoteRequest) {
+    pub fn on_vote_request_sent(&mut self, from: u32, req: &VoteRequest, voters: Vec<u32>) {
         self.note_term(from, req.term, "vote_req");
+        self.vote_time_voters.insert((from, req.term), voters);
         self.trace("vote_req", from as u64, req.term, req.last_log_index);
         if self.views.get(&from).map(|v| v.role) == Some(ROLE_LEARNER) {
             self.violate("C27", "learner_requested_vote", json!({"node": from, "term": req.term}));
@@ -282,8 +289,8 @@ impl Oracle {
             None => (0, 0),
         };
         self.trace("ae_resp", leader as u64, follower as u64, (kind << 56) | m);
-        if kind == 1 {
-            let lt = self.views.get(&leader).map(|v| v.term).unwrap_or(0);
+        let lt = self.views.get(&leader).map(|v| v.term).unwrap_or(0);
+        if kind == 1 && resp.term == lt {
             let e = self.acks.entry((leader, lt)).or_default().entry(follower).or_insert(0);
             if m > *e {
                 *e = m;
@@ -342,13 +349,15 @@ impl Oracle {
             self.violate(
                 "C02",
                 "term_regressed",
-                json!({"node": node, "before": seen, "after": term, "crash_kind": crash_kind}),
+                json!({"node": node, "before": seen, "after": term, "crash_kind": crash_kind,
+                       "learner_cfg": self.learner_cfg_nodes.contains(&node)}),
             );
         }
     }
 
     pub fn on_node_down(&mut self, node: u32, kind: &str) {
         self.trace("down", node as u64, kind.len() as u64, 0);
+        self.last_down_kind.insert(node, kind.to_string());
         if let Some(v) = self.views.get_mut(&node) {
             v.up = false;
             v.role = -1;
@@ -360,9 +369,14 @@ impl Oracle {
     pub fn on_leader_note(&mut self, node: u32, note: Option<(u32, u64)>) {
         self.trace("note", node as u64, note.map(|n| n.0 as u64).unwrap_or(0), note.map(|n| n.1).unwrap_or(0));
         let inc = self.views.get(&node).map(|v| v.inc).unwrap_or(0);
-        let list = self.leader_notes.entry(node).or_default();
-        let _ = inc;
-        list.push((vnow(), note));
+        if let Some((l, t)) = note {
+            let prev = self.note_terms.get(&(node, inc)).copied().unwrap_or(0);
+            if t < prev {
+                self.violate("C31", "notified_term_decreased", json!({"node": node, "before": prev, "after": t, "leader": l}));
+            }
+            self.note_terms.insert((node, inc), t.max(prev));
+        }
+        self.leader_notes.entry(node).or_default().push((vnow(), note));
     }
 
     pub fn summary(&self) -> Value {
